@@ -362,7 +362,7 @@ inline int harness_main(int argc, char** argv) {
     J res = J::obj(); J arr = J::arr();
     for (auto& s : subs()) {
       bool sel = only.empty();
-      for (auto& pat : only) if (s.id == pat || s.id.rfind(pat + ".", 0) == 0 || s.id.rfind(pat, 0) == 0) sel = true;
+      for (auto& pat : only) if (s.id == pat || s.id.rfind(pat + ".", 0) == 0) sel = true;   // exact id or a dotted prefix
       if (!sel) continue;
       long long n = (long long)std::llround(o.cases * s.weight);
       if (n < 1) n = 1;
